@@ -6,8 +6,9 @@
 
    Conventions (DESIGN.md section 3): sequences are N; every method that runs under changeCache.lock is
    one atomic step; the timer (CachePendingSeqMaxWait) is replaced by an adversarial bit [e_aged]
-   carried by each arriving entry; CacheSkippedSeqMaxWait by the op [Abandon] (everything currently
-   skipped is old enough).  The pending heap (container/heap ordered by Sequence) is a list kept
+   carried by each arriving entry; CacheSkippedSeqMaxWait by one adversarial bit per element of the skipped
+   list ([AbandonSome]: CleanSkippedSequenceQueue abandons exactly the elements whose bit is set; [Abandon]:
+   every element is old enough).  The pending heap (container/heap ordered by Sequence) is a list kept
    sorted by start sequence, new entries going after the entries with an equal start sequence: the
    order in which container/heap returns entries with EQUAL keys is not modelled (it only matters when
    two different entries with the same start sequence are pending, which a consistent feed cannot
@@ -149,7 +150,9 @@ Inductive op :=
 | Arrive (k : kind) (s : N) (aged : bool)      (* processEntry / releaseUnusedSequence *)
 | ArriveRange (lo hi : N) (aged : bool)        (* releaseUnusedSequenceRange *)
 | Housekeep                                    (* InsertPendingEntries -> _addPendingLogs *)
-| Abandon.                                     (* CleanSkippedSequenceQueue with every entry old enough *)
+| Abandon                                      (* CleanSkippedSequenceQueue with every element old enough *)
+| AbandonSome (old : list bool).               (* CleanSkippedSequenceQueue: element j of the skip list is old enough
+                                                  (timeNow - Timestamp >= CacheSkippedSeqMaxWait) iff bit j is set *)
 
 Definition step (st : state) (o : op) : state :=
   match o with
@@ -161,6 +164,9 @@ Definition step (st : state) (o : op) : state :=
   | Housekeep => add_pending st
   | Abandon =>
       mkSt (initial st) (maxp st) (next st) (pending st) (received st) [] (skipped st ++ abandoned st) (delivered st)
+  | AbandonSome old =>
+      let kd := sk_split old (skipped st) in
+      mkSt (initial st) (maxp st) (next st) (pending st) (received st) (fst kd) (snd kd ++ abandoned st) (delivered st)
   end.
 
 Fixpoint run (st : state) (ops : list op) : state :=
